@@ -240,7 +240,28 @@ func genWorkbook(c *fw.Ctx, idx int, o genOpts) (*ooxml.XWorkbook, *wbModel) {
 		// cells
 		keys := sortedKeys(addrs)
 		hasUnique := false
+		maxRow, maxCol := -1, -1
+		for _, a := range keys {
+			if a[0] > maxRow {
+				maxRow = a[0]
+			}
+			if a[1] > maxCol {
+				maxCol = a[1]
+			}
+		}
 		for ki, a := range keys {
+			// a shared-string-typed cell without a value (t="s" and no <v>, or an empty <v>): it shows
+			// nothing, whatever the shared strings table holds. Never on the last row or column, so the
+			// used range of the sheet is decided by valued cells only.
+			if tb := c.Rand("wb", idx, "sheet", si, "typedblank", a[0], a[1]); a[0] < maxRow && a[1] < maxCol && ki != len(keys)-1 && tb.Intn(10) == 0 {
+				cell := ooxml.XCell{Row: a[0], Col: a[1], Kind: ooxml.XBlank, TypedBlank: 1 + tb.Intn(2)}
+				f.add("kind=shared-typed-without-value")
+				sm.Want[a] = ""
+				sm.Kinds[a] = ooxml.XBlank
+				sh.Cells = append(sh.Cells, cell)
+				m.Nontriv = true
+				continue
+			}
 			cell := ooxml.XCell{Row: a[0], Col: a[1], Style: 0}
 			if wb.Styles && rs.Intn(4) == 0 {
 				cell.Style = 1
